@@ -526,6 +526,7 @@ pub fn build(raw: &RawPackage) -> Package {
     };
     let name = d.name.clone();
     let mut generic = false;
+    let mut class_maybe = false;
     let mut member_refs: Vec<usize> = Vec::new();
     let text = match d.kind {
       Kind::Class => {
@@ -657,6 +658,17 @@ pub fn build(raw: &RawPackage) -> Package {
         if r.explicitness == 1 {
           s.push_str("  inferred = 1;\n  v0() {}\n");
         }
+        if r.explicitness == 3 {
+          // members of unknown standing (the output grammar decides)
+          cx.rec.shapes.insert("class-members-of-unknown-standing");
+          class_maybe = true;
+          match v % 4 {
+            0 => s.push_str("  get gx() { return 1; }\n"),
+            1 => s.push_str("  @Reflect.metadata(\"k\", { max: 5 }) dp = [1, 2];\n"),
+            2 => s.push_str("  @Reflect.metadata(\"k\", 1) dq: number = 1;\n  @Reflect.metadata(\"m\", 2) dm(): void {}\n"),
+            _ => s.push_str("  dr = (a: number): string => String(a);\n  static ds = { a: 1 };\n"),
+          }
+        }
         s.push_str("}\n");
         s
       }
@@ -770,7 +782,16 @@ pub fn build(raw: &RawPackage) -> Package {
           format!("{EXP}function {name}(a: {a}, b = 1) {{{b} }}\n")
         }
         _ => {
-          let mut s = match v % 5 {
+          let mut s = match v % 6 {
+            5 => {
+              // a default value in a non-trailing position
+              cx.rec.shapes.insert("non-trailing-default-parameter");
+              let a = sl.s(&mut cx, i);
+              let c = sl.s(&mut cx, i);
+              let ret = sl.s(&mut cx, i);
+              let b = sl.body(&mut cx, i);
+              format!("{EXP}function {name}(a: {a} = null as any, b: string, c?: {c}): {ret} {{{b} void b; void c; return null as any; }}\n")
+            }
             0 => {
               let a = sl.s(&mut cx, i);
               let ret = sl.s(&mut cx, i);
@@ -815,7 +836,7 @@ pub fn build(raw: &RawPackage) -> Package {
               format!("{EXP}async function {name}(a: {a}): Promise<{ret}> {{{b} return null as any; }}\n")
             }
           };
-          if sh & 1 != 0 && v % 5 != 2 {
+          if sh & 1 != 0 && v % 6 != 2 {
             // expando properties (become a namespace in the output)
             let a = sl.s(&mut cx, i);
             s.push_str(&format!("{name}.tag = \"x\";\n{name}.make = (a: {a}): {a} => a;\n"));
@@ -905,6 +926,9 @@ pub fn build(raw: &RawPackage) -> Package {
     cx.decls[i].impl_refs = sl.imp.iter().filter(|x| x.1).map(|x| x.0).collect();
     cx.decls[i].generic = generic;
     cx.decls[i].member_refs = member_refs;
+    if class_maybe {
+      cx.decls[i].maybe_inferable = true;
+    }
     let m = cx.decls[i].module;
     cx.outs[m].body.push_str(&format!("\u{2}{i}\u{2}{text}"));
     cx
